@@ -1,0 +1,139 @@
+//go:build verif
+
+// C23: contracts for the directory synchronisation helpers (govc, /verif). Only compiled with -tags verif.
+
+package osutil
+
+// ---- abstract file system (assumption level: the I/O leaves) ---------------------------------------
+//
+// fsHolds(p, s): the file at path p has the content and the permission bits that the FileState s
+// describes. describes(r, m, s): r and m are a reader and a mode handed out by s.State().
+
+//@ ghost fsHolds(str, iface) bool
+//@ ghost describes(iface, int, iface) bool
+
+// interface method: hands out the description of the desired file; writes no program state; never
+// reports the "unchanged" sentinel as its own failure
+//@ func (osutil.FileState).State
+//@   trusted
+//@   assigns nothing
+//@   ensures result3 == nil ==> describes(result0, result2, recv)
+//@   ensures result3 != ErrSameState
+
+// comparison by reading both files (I/O): a positive verdict means the file on disk is as desired
+//@ func regularFileStateEqualTo
+//@   trusted
+//@   assigns nothing
+//@   ensures result0 ==> result1 == nil && fsHolds(filePath, state)
+//@   ensures result1 != ErrSameState
+
+//@ func symlinkFileStateEqualTo
+//@   trusted
+//@   assigns nothing
+//@   ensures result0 ==> result1 == nil && fsHolds(filePath, state)
+//@   ensures result1 != ErrSameState
+
+// the atomic write (its system-call order is C06): success means the target holds what was given,
+// no other path changes what it holds
+//@ func AtomicWrite
+//@   trusted
+//@   assigns fsHolds
+//@   ensures result == nil ==> forall s FileState :: {describes(reader, perm, s)} describes(reader, perm, s) ==> fsHolds(filename, s)
+//@   ensures forall p string, s FileState :: {fsHolds(p, s)} p != filename ==> fsHolds(p, s) == old(fsHolds(p, s))
+//@   ensures result != ErrSameState
+
+//@ func AtomicSymlink
+//@   trusted
+//@   assigns fsHolds
+//@   ensures forall p string, s FileState :: {fsHolds(p, s)} p != linkPath ==> fsHolds(p, s) == old(fsHolds(p, s))
+//@   ensures result != ErrSameState
+
+// ---- one file ----------------------------------------------------------------------------------------
+
+//@ func ensureRegularFileState
+//@   props C23
+//@   assigns fsHolds
+//@   guard call AtomicWrite: [desired-content-to-that-path] arg0 == filePath && describes(arg1, arg2, state) && arg3 == 0
+//@   guard call AtomicWrite: [only-if-different] !equal
+//@   ensures [written] result == nil ==> fsHolds(filePath, state)
+//@   ensures [same-state] result == ErrSameState ==> fsHolds(filePath, state) && forall p string, s FileState :: {fsHolds(p, s)} fsHolds(p, s) == old(fsHolds(p, s))
+//@   ensures [others-untouched] forall p string, s FileState :: {fsHolds(p, s)} p != filePath ==> fsHolds(p, s) == old(fsHolds(p, s))
+
+//@ func ensureSymlinkFileState
+//@   props C23
+//@   assigns fsHolds
+//@   guard call AtomicSymlink: [that-path-only-if-different] arg1 == filePath && !equal
+//@   ensures [same-state-writes-nothing] result == ErrSameState ==> forall p string, s FileState :: {fsHolds(p, s)} fsHolds(p, s) == old(fsHolds(p, s))
+//@   ensures [others-untouched] forall p string, s FileState :: {fsHolds(p, s)} p != filePath ==> fsHolds(p, s) == old(fsHolds(p, s))
+
+//@ func EnsureFileState
+//@   props C23
+//@   assigns fsHolds
+//@   guard call ensureRegularFileState: [pass-through] arg0 == filePath && arg1 == state
+//@   guard call ensureSymlinkFileState: [pass-through] arg0 == filePath && arg1 == state
+//@   ensures [same-state-writes-nothing] result == ErrSameState ==> forall p string, s FileState :: {fsHolds(p, s)} fsHolds(p, s) == old(fsHolds(p, s))
+//@   ensures [others-untouched] forall p string, s FileState :: {fsHolds(p, s)} p != filePath ==> fsHolds(p, s) == old(fsHolds(p, s))
+//@   ensures [regular-as-desired] (result == nil || result == ErrSameState) && called("ensureRegularFileState") ==> fsHolds(filePath, state)
+//@   ensures [unsupported-type-fails] !called("ensureRegularFileState") && !called("ensureSymlinkFileState") ==> result != nil
+
+// ---- one directory -----------------------------------------------------------------------------------
+
+//@ func matchAny
+//@   props C23
+//@   assigns nothing
+//@   nopanic
+//@   ensures [index-in-range] (result0 || result2 != nil) ==> 0 <= result1 && result1 < len(globs)
+//@   loop 0: invariant -1 <= idx0 && idx0 < len(globs)
+
+// loops: 0 validation of the names, 1 change phase, 2 patterns, 3 matches of one pattern, 4 erase phase
+//@ func EnsureDirStateGlobs
+//@   props C23
+//@   guard call filepath.Join: [inside-dir] len(arg0) == 2 && arg0[0] == dir
+//@   guard call EnsureFileState: [desired-state-of-that-name] arg0 == filePath && arg1 == fileState && has(old(content), baseName) && old(content)[baseName] == fileState
+//@   guard call EnsureFileState: [no-write-after-failure] firstErr == nil && content == old(content)
+//@   guard call os.Remove: [only-unwanted-match] arg0 == path && has(matches, path) && content[baseName] == nil
+//@   loop 1: invariant [write-mode] firstErr == nil && content == old(content)
+//@   loop 1: step [only-success-continues] err == nil || err == ErrSameState
+//@   loop 1: step [unchanged-file-not-written] err == ErrSameState ==> forall p string, s FileState :: {fsHolds(p, s)} fsHolds(p, s) == old(fsHolds(p, s))
+//@   loop 1: step [changed-iff-written] (err == nil ==> len(changed) == old(len(changed)) + 1 && changed[len(changed) - 1] == baseName) && (err == ErrSameState ==> changed == old(changed))
+//@   loop 1: step [earlier-kept] forall i int :: {changed[i]} 0 <= i && i < old(len(changed)) ==> changed[i] == old(changed[i])
+//@   loop 2: invariant -1 <= idx2 && idx2 < len(globs)
+//@   loop 2: invariant [mode] (firstErr == nil && content == old(content)) || (firstErr != nil && content == nil && changed == nil)
+//@   loop 2: invariant removed == nil
+//@   loop 3: invariant -1 <= idx3 && idx3 < len(m)
+//@   loop 3: invariant -1 <= idx2 && idx2 < len(globs)
+//@   loop 3: invariant [mode] (firstErr == nil && content == old(content)) || (firstErr != nil && content == nil && changed == nil)
+//@   loop 3: invariant removed == nil
+//@   loop 3: step [only-glob-results] forall p string :: {has(matches, p)} has(matches, p) ==> old(has(matches, p)) || p == m[idx3]
+//@   loop 4: invariant [mode] (content == old(content)) || (firstErr != nil && content == nil && changed == nil)
+//@   loop 4: step [removed-iff-remove-succeeded] content[baseName] == nil ==> (err == nil ==> len(removed) == old(len(removed)) + 1 && removed[len(removed) - 1] == baseName && firstErr == old(firstErr)) && (err != nil ==> removed == old(removed) && firstErr != nil)
+//@   loop 4: step [wanted-kept] content[baseName] != nil ==> removed == old(removed) && firstErr == old(firstErr)
+//@   loop 4: step [first-error-sticks] old(firstErr) != nil ==> firstErr == old(firstErr)
+//@   loop 4: step [earlier-kept] forall i int :: {removed[i]} 0 <= i && i < old(len(removed)) ==> removed[i] == old(removed[i])
+//@   loop 4: step [changed-frozen] changed == old(changed)
+//@   ensures [first-error-returned] final(firstErr) != nil ==> err == final(firstErr)
+//@   ensures [write-failure-forgets-changed] final(content) != content ==> err != nil && len(changed) == 0
+//@   ensures [success-keeps-desired] err == nil ==> final(content) == content && final(firstErr) == nil
+
+//@ func EnsureDirState
+//@   props C23
+//@   guard call EnsureDirStateGlobs: [one-pattern] arg0 == dir && len(arg1) == 1 && arg1[0] == glob && arg2 == content
+
+// ---- a tree of directories ---------------------------------------------------------------------------
+
+//@ func appendWithPrefix
+//@   props C23
+//@   ensures [all-reported] len(result) == len(paths) + len(filenames)
+//@   ensures [earlier-kept] forall i int :: {result[i]} 0 <= i && i < len(paths) ==> result[i] == old(paths[i])
+//@   loop 0: invariant -1 <= idx0 && idx0 < len(filenames) && len(paths) == old(len(paths)) + idx0 + 1
+//@   loop 0: invariant forall i int :: {paths[i]} 0 <= i && i < old(len(paths)) ==> paths[i] == old(paths[i])
+
+// loops: 0 validation of the directories, 1 validation of the names, 2 directories of content, 3 synchronisation,
+// 4 erase phase, 5 removal of emptied directories
+//@ func EnsureTreeState
+//@   props C23
+//@   guard call EnsureDirStateGlobs: [same-patterns] arg1 == globs
+//@   guard call EnsureDirStateGlobs: [desired-or-erase] arg0 == path && ((firstErr == nil && arg2 == dirContent && dirContent == content[relPath]) || (firstErr != nil && arg2 == nil))
+//@   guard call sort.Strings: [failure-forgets-changed] firstErr == nil || len(changed) == 0
+//@   loop 3: invariant [no-sync-after-failure] firstErr == nil
+//@   loop 4: invariant [erase-mode] firstErr != nil && changed == nil
